@@ -41,11 +41,21 @@ def _big(x):
 
 
 def _f(x):
-    return float(x)
+    try:
+        return float(x)
+    except OverflowError:
+        raise Undef("magnitude beyond the oracle's bound")
 
 
 def ev(s, sigma):
     """Evaluate shadow `s` at assignment `sigma` (dict name -> Fraction) -> Val."""
+    try:
+        return _ev(s, sigma)
+    except (OverflowError, ZeroDivisionError, ValueError, RecursionError) as e:
+        raise Undef("arithmetic outside the oracle's range: " + type(e).__name__)
+
+
+def _ev(s, sigma):
     k = s[0]
     if k == "Constant":
         v = s[1][1]
@@ -157,6 +167,13 @@ SAME, DIFF, SKIP = "same", "diff", "skip"
 
 def agree(a, b, tolerant):
     """Three-valued agreement of two Vals."""
+    try:
+        return _agree(a, b, tolerant)
+    except (Undef, OverflowError):
+        return SKIP
+
+
+def _agree(a, b, tolerant):
     if a.ill or b.ill:
         return SKIP
     if not (a.approx or b.approx):
@@ -177,19 +194,34 @@ def agree(a, b, tolerant):
 
 def holds(s, sigma, tolerant=False):
     """Truth value of an equation shadow at sigma: True / False / None (undefined or
-    too close to call)."""
-    if s[0] != "Equal" or s[2] is None or s[3] is None:
+    too close to call).  A chain 'a = b = c' (nested Equal nodes) holds iff all of its
+    members agree."""
+    r = _chain(s, sigma, tolerant)
+    if r is None:
         return None
-    try:
-        a = ev(s[2], sigma)
-        b = ev(s[3], sigma)
-    except Undef:
+    return r[0]
+
+
+def _chain(s, sigma, tolerant):
+    """-> (truth, Val or None) or None when undefined / too close to call"""
+    if s is None:
         return None
-    r = agree(a, b, tolerant)
+    if s[0] != "Equal":
+        try:
+            return (True, ev(s, sigma))
+        except Undef:
+            return None
+    a = _chain(s[2], sigma, tolerant)
+    b = _chain(s[3], sigma, tolerant)
+    if a is None or b is None:
+        return None
+    if not a[0] or not b[0]:
+        return (False, None)
+    r = agree(a[1], b[1], tolerant)
     if r == SAME:
-        return True
+        return (True, a[1])
     if r == DIFF:
-        return False
+        return (False, None)
     return None
 
 
@@ -340,14 +372,17 @@ def float_constants(s):
 
 
 def folded(before, after):
-    """True iff `after` contains a float-typed constant value that `before` does not
-    (something was computed in floating point by the rewrite)."""
+    """True iff `after` contains a float-typed constant that `before` does not contain
+    as a float-typed constant of the same absolute value (something was computed in
+    floating point by the rewrite; a pure sign flip is exact and does not count)."""
     from .shadow import constants
     from collections import Counter
 
-    cb = Counter(p[1] for p in constants(before) if isinstance(p[1], Fraction))
-    ca = Counter(p[1] for p in constants(after) if "float" in p[0] and isinstance(p[1], Fraction))
+    def floats(s):
+        return Counter(abs(p[1]) for p in constants(s) if "float" in p[0] and isinstance(p[1], Fraction))
+
+    cb, ca = floats(before), floats(after)
     for v, n in ca.items():
-        if cb.get(v, 0) < n and cb.get(-v, 0) + cb.get(v, 0) < n:
+        if cb.get(v, 0) < n:
             return True
     return False
